@@ -267,6 +267,7 @@ type c08run struct {
 	reps    int
 	fresh   bool // scheduled compiles use the process's second importer/file set instead of the canonical run's
 	siteSel int  // 0: perturb every site; k>0: only sites whose hash%4 == k-1
+	noise   *pkgSrc // another package (with overlapping identifiers) compiled in between, same importer and file set
 	work    []string
 	whash   uint64
 	extra   map[string]int
@@ -306,6 +307,9 @@ func (c08) NewRun(plan *simrt.Source, job *harn.Job) harn.Run {
 	r.reps = 2 + plan.Draw(3)
 	r.fresh = plan.Chance(300)
 	r.siteSel = plan.Draw(5)
+	if plan.Chance(400) {
+		r.noise = genPackage(plan)
+	}
 	var names []string
 	for n := range r.pkg.files {
 		names = append(names, n)
@@ -407,6 +411,16 @@ func (r *c08run) RunSeq(sched *simrt.Source, keepLog bool) *simrt.Result {
 				other = newEnv()
 			}
 			e = other
+		}
+		if r.noise != nil {
+			// state left behind by compiling another package must not leak into this one
+			var nn []string
+			for n := range r.noise.files {
+				nn = append(nn, n)
+			}
+			sort.Strings(nn)
+			compile(r.noise, nn, e)
+			res.Faults["other-package-compiled-in-between"]++
 		}
 		got := compile(r.pkg, listing, e)
 		detmap.SetOrder(nil)
